@@ -19,6 +19,8 @@ pub const LE: &str = "__lt__";
 pub const LEQ: &str = "__le__";
 pub const MOD: &str = "__mod__";
 pub const MUL: &str = "__mul__";
+pub const NEG: &str = "__neg__";
+pub const POS: &str = "__pos__";
 pub const POW: &str = "__pow__";
 pub const SUB: &str = "__sub__";
 
